@@ -27,7 +27,7 @@ if [ -f "$src/demo.rs" ]; then
   cp "$src/demo.rs" "$wt/tests/demo.rs"
   d1=$(cd "$wt" && cargo test --offline --features serde --test demo 2>&1); c1=$?
   echo "demo_with_patch: exit=$c1 $(echo "$d1" | grep -E "^test result" | head -1)" >> "$res"
-  git -C "$wt" apply -R "$src/patch.diff"
+  git -C "$wt" checkout -- .
   d2=$(cd "$wt" && cargo test --offline --features serde --test demo 2>&1); c2=$?
   echo "demo_without_patch: exit=$c2 $(echo "$d2" | grep -E "^test result" | head -1)" >> "$res"
   rm -f "$wt/tests/demo.rs"
